@@ -161,7 +161,8 @@ def rddOracle (a : List String) (obs : String) : String :=
     let head := (obs.splitOn " masks=").headD ""
     match head.splitOn " " with
     | [res, err, pos, wr] =>
-      let side := natOr st
+      -- ReadClientText & co. exist per side only: their state is the side bit
+      let side := if want == "D" then natOr st else natOr st % 4
       let client := side / 2 % 2 == 1
       let bs := hexOr hex
       let p := parseFor side false bs
